@@ -72,17 +72,25 @@ let rec special (v : value) : bool =
 
 (* causes: the negated hypotheses of the partial theorems, per string literal.  The causes of the
    repaired defects (raw-control-char, block-escaped-triple-quote, block-blank-only,
-   default-null-list-wrapped) are gone on purpose: a regression is unexplained, hence a violation. *)
+   default-null-list-wrapped, braced-unicode-escape, block-quote-next-to-whitespace) are gone on
+   purpose: a regression is unexplained, hence a violation.  [rescan_exact] stays as a check of the
+   theorem rescan_exact_proof on every generated block string (it may not fail when go_block_lexable). *)
 let rec causes (v : value) : string list =
   match v with
-  | VStr (r, false) -> if no_brace_escape r then [] else ["braced-unicode-escape"]
+  | VStr (_, false) -> []
   | VStr (r, true) ->
-    (if rescan_exact r then [] else ["block-quote-next-to-whitespace"])
-    @ (if go_block_lexable r then [] else ["block-lexer-delimits-differently"])
+    (if go_block_lexable r then [] else ["block-lexer-delimits-differently"])
     @ (if utf8_ok O (block_string_value r) then [] else ["block-ill-formed-utf8"])
   | VList l -> List.concat_map causes l
   | VObj l -> List.concat_map (fun (_, v) -> causes v) l
   | _ -> []
+
+let rec rescan_theorem_violated (v : value) : bool =
+  match v with
+  | VStr (r, true) -> go_block_lexable r && not (rescan_exact r)
+  | VList l -> List.exists rescan_theorem_violated l
+  | VObj l -> List.exists (fun (_, v) -> rescan_theorem_violated v) l
+  | _ -> false
 
 let cause_string (cs : string list) : string =
   match List.sort_uniq compare cs with
@@ -142,6 +150,7 @@ let handle (x : sexp) : (string * string) list =
      let cs = if valid_lit then causes v else ["malformed-literal-accepted"] in
      let m = string_of_bytes (value_to_json vs v) in
      nontrivial := depth v >= 2 || special v;
+     if rescan_theorem_violated v then mismatch "rescan-theorem" "a lexable block string whose delimiter re-scan is not exact";
      let parsed = ref true in
      (match l1 with
       | L [A "l1"; A "ok"; S b; L [A "tree"; t]] ->
